@@ -13,7 +13,7 @@ where
     S::Error: Send + 'static,
     M: Fn(&S::Error) -> Outcome + Send + Sync + 'static,
 {
-    caller_linger(w, svc, req, pause, Linger::No, map)
+    caller_linger(w, svc, req, pause, Linger::Auto, map)
 }
 
 /// What the caller does with the call future once it has resolved: a completed future may
@@ -26,6 +26,8 @@ pub enum Linger {
     Polls(u32),
     /// keep it for this much virtual time
     Us(u64),
+    /// decided per request from `World::habits` (off when that is 0)
+    Auto,
 }
 
 pub fn caller_linger<S, M>(w: Arc<World>, svc: S, req: Req, pause: bool, linger: Linger, map: M) -> impl FnOnce() -> ActorFut + Send + 'static
@@ -38,7 +40,24 @@ where
     move || {
         Box::pin(tokio::task::unconstrained(async move {
             let mut svc = svc;
-            if linger == Linger::No {
+            let mut linger = linger;
+            let mut ready_gap = 0u64;
+            if linger == Linger::Auto {
+                let habits = w.habits.load(std::sync::atomic::Ordering::Relaxed);
+                linger = Linger::No;
+                if habits != 0 {
+                    let h = crate::prng::mix(habits, req.id);
+                    linger = match h % 8 {
+                        0 => Linger::Polls(1 + ((h >> 8) % 12) as u32),
+                        1 => Linger::Us(1000 * (1 + (h >> 8) % 6)),
+                        _ => Linger::No,
+                    };
+                    if (h >> 4) % 8 == 0 {
+                        ready_gap = 1 + (h >> 16) % 3;
+                    }
+                }
+            }
+            if linger == Linger::No && ready_gap == 0 {
                 do_call(&w, &mut svc, req, pause, &map).await;
                 return;
             }
@@ -46,6 +65,10 @@ where
             match std::future::poll_fn(|cx| svc.poll_ready(cx)).await {
                 Ok(()) => {
                     w.log(Ev::OuterReady { req: id, ok: true });
+                    // a client may hold a ready service for a while before it calls it
+                    for _ in 0..ready_gap {
+                        yield_once().await;
+                    }
                 }
                 Err(e) => {
                     w.log(Ev::OuterReady { req: id, ok: false });
@@ -73,7 +96,7 @@ where
                     }
                 }
                 Linger::Us(n) => tokio::time::sleep(std::time::Duration::from_micros(n)).await,
-                Linger::No => {}
+                Linger::No | Linger::Auto => {}
             }
             w.log(Ev::Note { what: format!("late-drop r{id}") });
             drop(fut);
